@@ -693,6 +693,12 @@ fn model_range(m: &MBitmap, addr: usize, len: usize) -> Vec<usize> {
     (first..=last.min(m.size.saturating_sub(1))).collect()
 }
 
+/// a bitmap from `NewBitmap::with_len` (system page size)
+fn p2_default(byte_size: usize) -> (AtomicBitmap, usize) {
+    use vm_memory::bitmap::NewBitmap;
+    (AtomicBitmap::with_len(byte_size), 4096)
+}
+
 fn gen_size_ps() -> (usize, usize) {
     let c = cx();
     let ps = c.pick(&[1usize, 1, 2, 3, 7, 64, 100, 128, 4096, 1 << 20]);
@@ -838,6 +844,12 @@ impl Scenario for Model {
             MBitmap { real: Arc::new(AtomicBitmap::new(byte_size, psn)), pages: BTreeSet::new(), size: byte_size.div_ceil(ps), byte_size, ps }
         };
         ms.push(first);
+        if cx().a(3) == 0 {
+            // a second bitmap of unrelated geometry (target of clone_from, among other things)
+            let (b2, p2) = gen_size_ps();
+            let real = if cx().a(4) == 0 && b2 <= 4096 * 400 { p2_default(b2) } else { (AtomicBitmap::new(b2, NonZeroUsize::new(p2).unwrap()), p2) };
+            ms.push(MBitmap { real: Arc::new(real.0), pages: BTreeSet::new(), size: b2.div_ceil(real.1), byte_size: b2, ps: real.1 });
+        }
         let nact = 1 + cx().a(3);
         let nops = 1 + cx().a(40) as usize;
         let mut log: Vec<String> = Vec::new();
@@ -851,7 +863,7 @@ impl Scenario for Model {
             let actor = cx().a(nact) as u8;
             cx().actor = actor;
             let bi = cx().a(ms.len() as u32) as usize;
-            let kind = cx().a(16);
+            let kind = cx().a(17);
             cx().op_begin(step as u64);
             let mut what = "";
             let desc: String;
@@ -987,6 +999,25 @@ impl Scenario for Model {
                             }
                             OpOutcome::Panic(p) => OpOutcome::Panic(p),
                             OpOutcome::Sim(s) => OpOutcome::Sim(s),
+                        }
+                    }
+                    16 => {
+                        // Clone::clone_from into an existing bitmap of another geometry
+                        what = "clone_from";
+                        let di = cx().a(ms.len() as u32) as usize;
+                        desc = format!("a{} #{}.clone_from(#{})", actor, di, bi);
+                        if di == bi || Arc::strong_count(&ms[di].real) != 1 {
+                            OpOutcome::Ok(())
+                        } else {
+                            let src = ms[bi].real.clone();
+                            let (pages, size, byte_size, ps) = (ms[bi].pages.clone(), ms[bi].size, ms[bi].byte_size, ms[bi].ps);
+                            let d = &mut ms[di];
+                            let r = catch(|| Arc::get_mut(&mut d.real).unwrap().clone_from(&src));
+                            d.pages = pages;
+                            d.size = size;
+                            d.byte_size = byte_size;
+                            d.ps = ps;
+                            r
                         }
                     }
                     12 | 13 => {
